@@ -16,7 +16,7 @@ package main
 //   * temporaries (SSA registers other than local-variable addresses and parameters) are dropped: a later use of
 //     one is an engine error, never a stale value,
 //   * the path condition is reset to the facts that held at function entry (parameter facts, requires).
-// Restrictions (engine error otherwise): root frame only, outside any loop, no pending defers.
+// Restrictions: root frame only (engine error otherwise); defers must be registered unconditionally before the anchor.
 
 import (
 	"fmt"
@@ -40,12 +40,11 @@ func (e *Engine) applyCut(s *State, fr *Frame, at AtClause, anchor string, site 
 	if !fr.isRoot || len(s.frames) != 1 {
 		e.bail("cut at %s: only in the root function", anchor)
 	}
-	if len(fr.loops) != 0 {
-		e.bail("cut at %s: not inside a loop", anchor)
-	}
-	if len(fr.defers) != 0 {
-		e.bail("cut at %s: pending defers", anchor)
-	}
+	// Inside a loop a cut is the same rule: the region from which the anchor is reachable then contains the whole
+	// enclosing loop body (back edge), so everything the loop may write is havocked; every arrival has the same
+	// static loop nesting, and the continuing path ends at the back edge like any other path of the iteration.
+	// pending defers: the continuing path keeps the ones registered on the first arriving path; a function that
+	// registers defers conditionally before the anchor is not a candidate for a cut
 	// the call at the anchor runs with the argument values computed on the first arriving path: they must be the
 	// same on every path (parameters, constants, loads from a parameter's own stack slot)
 	if cc := dstCommon(site); cc != nil && at.When == "before" {
